@@ -1,5 +1,6 @@
 import Driver.Decode
 import Ysgo.Obs
+import Ysgo.Model.Markup
 /-! driver for the `run` stream: a program, a host configuration and an operation list over one or more runners -/
 namespace Ysgo.Drv
 open Ysgo
@@ -33,14 +34,14 @@ def hostEnv (extraCmds : List String) : Env Host where
     else if name == "wait" then (.panicked, h)       -- timing dependent: not modelled in this stream
     else (.unknown, h)
 
-/-- placeholder markup pass until the full model is linked in: plain text only -/
+/-- the markup pass of the runner: the model of `markup.LineParser.ParseMarkup` with its persistent state -/
 abbrev MRes := String × String        -- text, printed attributes
-def isSpaceC (c : Char) : Bool := c = ' ' || c = '\t' || c = '\n' || c = '\r' || c.toNat = 0xb || c.toNat = 0xc || c.toNat = 0x85 || c.toNat = 0xa0
-def trimStr (s : String) : String := String.ofList ((s.toList.dropWhile isSpaceC).reverse.dropWhile isSpaceC).reverse
-def plainMarkup : Markup Unit MRes where
-  parse _ s :=
-    if s.toList.any (fun c => c = '[' || c = ']' || c = ':' || c = '\\') then ((), .err .unmodelled)
-    else ((), .ok (trimStr s, ""))
+def realMarkup : Markup Markup.ParserState MRes where
+  parse st s :=
+    match Markup.parseLine st s with
+    | (st', .ok r) => (st', .ok (r.text, Markup.showAttrs r.attrs))
+    | (st', .err) => (st', .err .markup)
+    | (st', .panic) => (st', .panic .index)
 
 def showTags (ts : List String) : String := Obs.join "," (ts.map Obs.esc)
 def showLine (r : MRes) (tags : List String) : String := Obs.esc r.1 ++ "^" ++ showTags tags ++ "^" ++ r.2
@@ -50,7 +51,7 @@ def showStore (m : Store) : String :=
 def showCounts (m : Map Nat) : String :=
   Obs.join "," ((Obs.sortBy (fun a b => Obs.strLt a.1 b.1) m).map fun (k, v) => Obs.esc k ++ "=" ++ toString v)
 
-abbrev RR := R Host Unit
+abbrev RR := R Host Markup.ParserState
 
 structure HR where
   r : RR
@@ -93,11 +94,11 @@ def runCase (c : S) : List String := Id.run do
     | _ => m) []
   let extra := ((c.find "cmds").map S.args |>.getD []).map S.str
   let env := hostEnv extra
-  let mk := plainMarkup
+  let mk := realMarkup
   let mkRunner : Option RR :=
     match Rng.seedToInt64 seedStr with
     | none => none
-    | some sd => if seedStr = "" then none else R.init prog vars { host := {}, rng := Rng.seed sd } ()
+    | some sd => if seedStr = "" then none else R.init prog vars { host := {}, rng := Rng.seed sd } {}
   match mkRunner with
   | none => return ["LOAD ERR"]
   | some r0 =>
